@@ -203,10 +203,12 @@ def run(ctx):
     gets = [(b, t) for b, t in tts.calls() if callee_matches(t, "environment::LexicalScope::get")]
     trs = [(b, t) for b, t in tts.calls() if callee_matches(t, "Transformer::transform")]
     rec = [(b, t) for b, t in tts.calls() if callee(t) == tts.name]
-    tpc = [(b, t) for b, t in tts.calls() if callee_matches(t, "Parser::transform_procedure_call")]
-    if len(gets) != 1 or len(trs) != 1 or not rec:
-        ctx.undecided("C04-reexpand", "shape", "macro lookup / expansion / re-submission not found in transform_to_statement itself (get=%d transform=%d rec=%d)" % (
-            len(gets), len(trs), len(rec)), where_of(tts))
+    # (the call transformer itself, or a helper of the parser that wraps it)
+    _wraps = {g.name for g in fb.all("lib") if g.name != tts.name and any(callee_matches(t2, "Parser::transform_procedure_call") for _, t2 in g.calls())}
+    tpc = [(b, t) for b, t in tts.calls() if callee_matches(t, "Parser::transform_procedure_call") or callee(t) in _wraps]
+    if len(gets) != 1 or len(trs) != 1 or not rec or not tpc:
+        ctx.undecided("C04-reexpand", "shape", "macro lookup / expansion / re-submission / plain call not found in transform_to_statement itself (get=%d transform=%d rec=%d call=%d)" % (
+            len(gets), len(trs), len(rec), len(tpc)), where_of(tts))
     else:
         gs = mir.result_switch_after(tts, gets[0][0])
         some_r = mir.dominated_region(tts, gs[1].get(1, gs[2])) if gs else set()
@@ -279,7 +281,10 @@ def kind_table(ctx, fb, md, mds):
                     ok = res is want
                     why = "result %s, expected %s" % (res, want)
                 elif want == "stream":
-                    ok = res == "depends" and mds.name in cnames
+                    # (through match_datum_stream itself, or through a helper of this crate that hands the elements to it)
+                    helpers = {g.name for g in fb.all("lib") if g.name not in (md.name, mds.name) and
+                               any(callee(t2) == mds.name for _, t2 in g.calls())}
+                    ok = res == "depends" and (mds.name in cnames or any(c in helpers for c in cnames))
                     why = "must defer to match_datum_stream (result %s, calls %s)" % (res, [c.rsplit('::', 1)[-1] for c in cnames if c][:4])
                 elif want == "bind":
                     ins = [t for _, t in calls if callee_matches(t, "HashMap::insert")]
